@@ -54,6 +54,14 @@ def fpaRun (basis : Array W) (var : Variant) (color : Color) (size : Nat) (choic
   | .ok p0 => some (fpaLoop basis var color (fpaHorizon var) (fpaHorizon var + 1) 0 choices { positions := [p0] })
   | .error _ => none
 
+/-- cut a token list at every "|" -/
+def splitBar : List String → List (List String)
+  | [] => [[]]
+  | t :: ts =>
+    match splitBar ts with
+    | [] => if t == "|" then [[], []] else [[t]]
+    | g :: gs => if t == "|" then [] :: g :: gs else (t :: g) :: gs
+
 def fpaParse (args : List String) : Option (Variant × Color × Nat × List Move) :=
   match args with
   | v :: c :: s :: ms => do
@@ -73,6 +81,20 @@ def handleFPA : Handler := fun st op args =>
       | some r => some (st, " ".intercalate r.trace.reverse)
       | none => some (st, "panic")
     | none => some (st, "bad-op")
+  -- one rule value for several games: the rule's notes of an earlier game are no part of a later one
+  | "fpaseq" =>
+    match args with
+    | var :: rest =>
+      let games := (splitBar rest).filter (fun g => g.length ≥ 2)
+      let outs := games.map fun g =>
+        match fpaParse (var :: g) with
+        | some (v, col, size, ms) =>
+          match fpaRun st.basis v col size ms with
+          | some r => " ".intercalate r.trace.reverse
+          | none => "panic"
+        | none => "bad-op"
+      some (st, " || ".intercalate outs)
+    | _ => some (st, "bad-op")
   | "fpaopts" =>
     match fpaParse args with
     | some (var, col, size, ms) =>
